@@ -23,7 +23,7 @@ var CallDeadline = func() time.Duration {
 			return time.Duration(n) * time.Second
 		}
 	}
-	return 60 * time.Second
+	return 30 * time.Second
 }()
 
 // ErrName maps an error to its backend-independent name.
